@@ -95,6 +95,12 @@ class Event:
         return self.data.get("x")
 
     @property
+    def is_telemetry(self):
+        """expanded from the crate's diagnostics macros (log_event!/increment_counter!): values are only logged"""
+        x = self.data.get("x") or ""
+        return x in ("m:log_event", "m:increment_counter", "m:crate::log_event", "m:crate::increment_counter") or x.endswith("log_event") or x.endswith("increment_counter")
+
+    @property
     def is_atomic(self):
         return self.kind == "call" and self.callee.startswith("core::sync::atomic::Atomic::<")
 
@@ -452,6 +458,48 @@ class Body:
             if r["k"] in ("ref", "rawptr"):
                 return self.producer_call({"c": [r["p"][0], []]}, depth + 1)
         return None
+
+    def readers_of_local(self, l):
+        """events that read local l (as operand or through a place rooted at l)"""
+        out = []
+        for e in self.events:
+            places = []
+            if e.kind == "call":
+                places = [op_place(a) for a in e.args]
+            elif e.kind == "assign":
+                r = e.data["r"]
+                for k in ("o", "a", "b"):
+                    if k in r and isinstance(r[k], dict):
+                        places.append(op_place(r[k]))
+                if "p" in r:
+                    places.append(r["p"])
+                for o in r.get("ops", []) or []:
+                    places.append(op_place(o))
+            elif e.kind in ("switch", "yield", "assert"):
+                places = [op_place(e.data.get("o"))]
+            if any(p is not None and p[0] == l for p in places):
+                out.append(e)
+        return out
+
+    def only_formatted(self, call_event, depth=0):
+        """the result of this call is consumed only by formatting machinery (diagnostics/log output)"""
+        todo = [call_event.data["d"][0]]
+        seen = set()
+        any_reader = False
+        while todo:
+            l = todo.pop()
+            if l in seen:
+                continue
+            seen.add(l)
+            for e in self.readers_of_local(l):
+                any_reader = True
+                if e.kind == "assign" and e.data["r"]["k"] in ("ref", "use", "cast", "tuple", "array", "agg") and not e.data["p"][1]:
+                    todo.append(e.data["p"][0])
+                elif e.kind == "call" and (e.callee.startswith("core::fmt::") or e.callee.startswith("alloc::fmt::") or "telemetry" in e.callee):
+                    continue
+                else:
+                    return False
+        return any_reader
 
     def origin_call(self, op, depth=0):
         """Like producer_call, but looks through transparent calls (deref, Pin::new_unchecked,
